@@ -70,14 +70,18 @@ def register_package(pkg: str, version: str, schema_classes: List[type], modname
     from metador_core.schema.plugins import PluginPkgMeta
 
     _patch()
-    mod = module(modname)
     eps = []
     for cls in schema_classes:
         info = cls.Plugin
         attr = f"{cls.__name__}"
-        setattr(mod, attr, cls)
-        cls.__module__ = modname
-        eps.append((str(to_ep_name(info.name, tuple(info.version))), f"{modname}:{attr}"))
+        # the entry point must be importable: the class' own module if it has one, else a synthetic one
+        mname = cls.__module__
+        mod = sys.modules.get(mname)
+        if mod is None or getattr(mod, attr, None) is not cls:
+            mod = module(modname)
+            setattr(mod, attr, cls)
+            mname = modname
+        eps.append((str(to_ep_name(info.name, tuple(info.version))), f"{mname}:{attr}"))
     d = SynthDist(pkg, version, {"metador_schema": eps})
     _DISTS[pkg] = d
     entrypoints.pkg_meta[pkg] = PluginPkgMeta.for_package(pkg)
